@@ -686,12 +686,13 @@ impl<C: CrcCalculator> Encapsulator<C> {
             gse_len = gse_len_min as u16;
         } else {
             // first packet
-            let min_header_len =
-                min_header_len + FRAG_ID_LEN + TOTAL_LENGTH_LEN + total_len_extensions;
+            // (min_header_len already counts the extensions)
+            let min_header_len = min_header_len + FRAG_ID_LEN + TOTAL_LENGTH_LEN;
 
             // check the buffer size
             // if it cannot write at least more than the header
-            if buffer_len < min_header_len {
+            // (or if the header alone does not fit in a GSE packet)
+            if buffer_len < min_header_len || GSE_LEN_MAX + FIXED_HEADER_LEN < min_header_len {
                 return Err(EncapError::ErrorSizeBuffer);
             }
 
@@ -702,7 +703,9 @@ impl<C: CrcCalculator> Encapsulator<C> {
             }
 
             pkt_type = PktType::FirstFragPkt;
-            pdu_len_encapsulated = buffer_len - min_header_len;
+            // a GSE packet cannot be longer than GSE_LEN_MAX + FIXED_HEADER_LEN, whatever the buffer
+            pdu_len_encapsulated =
+                (buffer_len - min_header_len).min(GSE_LEN_MAX + FIXED_HEADER_LEN - min_header_len);
             gse_len = (FRAG_ID_LEN
                 + TOTAL_LENGTH_LEN
                 + PROTOCOL_LEN
@@ -742,7 +745,8 @@ impl<C: CrcCalculator> Encapsulator<C> {
                 };
 
                 // define encap status
-                let pkt_len = FIRST_FRAG_LEN + label_len + pdu_len_encapsulated;
+                let pkt_len =
+                    FIRST_FRAG_LEN + label_len + total_len_extensions + pdu_len_encapsulated;
                 EncapStatus::FragmentedPkt(pkt_len as u16, context_frag)
             }
             _ => EncapStatus::CompletedPkt(gse_len + FIXED_HEADER_LEN as u16),
